@@ -23,7 +23,7 @@ ASSUMPTIONS = [
     "WFHist (the quantifier's restriction), enforced by the generator: pointer records have an owner name spelled exactly as a browsed type "
     "and class IN; the browsed types (_x._tcp.local., _y._udp.local., _Zed._tcp.local. -- the last one with an upper-case letter) are not nested; one datagram never carries two spellings of one "
     "instance name; browsers are created at any time (since the D23 repair the creation purges expired records first), with a frozen clock "
-    "during the creation (the two-readings window is the known finding D23b)",
+    "or a clock ticking per reading during the creation (D23b regression family)",
     "instance names are specific to their type, and SRV/TXT/address owner names have one spelling (keeps callback order independent of set iteration order)",
 ]
 
@@ -159,9 +159,8 @@ def expired_ptr_cached(ref, types, now):
 
 
 def well_formed(ops):
-    """WFHist on a history (used while shrinking).  Since the D23 repair (the creation purges expired records first) browsers may be
-    created at any time; what stays outside the quantifier is a creation during which the clock ticks between the purge's reading and
-    the replay's reading while a pointer record of the browser's types runs out exactly in between (D23b)"""
+    """WFHist on a history (used while shrinking).  Since the D23/D23b repairs (the creation purges expired records first and replays
+    with the same clock reading) browsers may be created at any time, also while the clock ticks"""
     ref = CC.Ref()
     for op in ops:
         if op[0] == "D":
@@ -172,8 +171,6 @@ def well_formed(ops):
             ref.purge(op[1])
         elif op[0] == "BA":
             ref.purge(op[2])
-            if len(op) > 4 and op[4] and expired_ptr_cached(ref, op[3], op[2] + 1):
-                return False
     return True
 
 
@@ -330,9 +327,9 @@ def d23_valid(ops):
     return any(o[0] == "BA" for o in ops)
 
 
-# D23b: the creation reads the clock twice (purge in async_add_listener, replay in _async_update_matching_records); a pointer record that
-# runs out between the two readings is neither purged nor replayed, and is never Added afterwards.  Outside the quantifier (at the replay's
-# reading it is an expired-but-unpurged record); known finding.
+# D23b (repaired in /repo c7503f0: one clock reading for purge and replay; the family stays as a regression input, run with a clock that
+# ticks per reading).  Before: the creation read the clock twice (purge in async_add_listener, replay in _async_update_matching_records); a
+# pointer record that ran out between the two readings was neither purged nor replayed, and was never Added afterwards.
 D23B_SIG = "C04:created-between-two-clock-readings:never-added-after-refresh"
 
 
@@ -399,6 +396,7 @@ def run(ctx):
     run_d23b = CC.Runner(res, "C04", ctx, oracle_d23b, valid=d23b_valid)
     for ops in d23b_histories():
         run_d23b.add("d23b-clock-ticks-during-creation", probes, ops)
+        run_.add("d23b-regression", probes, ops)         # and the plain C04 predicates
     run_d23b.finish()
 
     # outside the quantifier: model correspondence only (exercises the Added > Removed > Updated precedence, which WFHist makes unreachable)
